@@ -194,6 +194,13 @@ pub fn gen_setup(r: &mut Rng, o: &GenOpts) -> Option<SPDC> {
       sig
     })
     .map(|s| spdc.signal = s)?;
+    if !o.phase_matched && r.below(10) == 0 {
+      // counter-propagating signal (direction().z < 0)
+      spdc.crystal_setup.counter_propagation = true;
+      let th = std::f64::consts::PI - spdc.signal.theta_internal().value_unsafe;
+      let ph = spdc.signal.phi();
+      spdc.signal.set_angles(ph, th * RAD);
+    }
     if r.coin() {
       let s2 = spdc.clone();
       if let Some(Ok(id)) = guard(move || s2.optimum_idler()) {
@@ -402,6 +409,9 @@ fn describe(spdc: &SPDC) -> String {
 }
 
 fn count_setup(ctx: &mut Ctx, tag: &str, spdc: &SPDC) {
+  if spdc.signal.direction().z < 0.0 || spdc.idler.direction().z < 0.0 {
+    ctx.count(&format!("{}/counter-propagating", tag));
+  }
   ctx.count(&format!("{}/crystal/{}", tag, spdc.crystal_setup.crystal));
   ctx.count(&format!("{}/pm/{}", tag, spdc.crystal_setup.pm_type));
   ctx.count(&format!(
